@@ -985,27 +985,9 @@ func c14RunLane(t *testing.T, s *verifh.Session, e *c14Env, cases []*c14Case, ne
 			count("panic")
 			continue
 		}
-		if c.stream == "short" && c.proto == "h3" && o.rtErr == "" {
-			// The HTTP/3 body reader (internal/http3/body.go, as upstream quic-go) only checks for
-			// MORE data than declared; a stream that ends early is a clean EOF on that stack,
-			// decoded or not - a framing matter (C03), not a decoding one. Judged leniently here:
-			// an error, or exactly what the reference decoder makes of the bytes received.
-			alg := ""
-			if o.unc {
-				alg = c.alg
-			}
-			lenient := strings.HasPrefix(o.term, "err")
-			if !lenient {
-				if alg == "" {
-					lenient = bytes.Equal(o.data, c.wireBody())
-				} else {
-					_, out, term := verifc14.Ref(alg, c.wireBody(), io.EOF)
-					lenient = bytes.Equal(o.data, out) && o.term == term
-				}
-			}
-			s.Observe(c.id, lenient, class, true, human, o.answer(c))
-			continue
-		}
+		// (HTTP/3 used to accept a message shorter than its Content-Length as a clean EOF; since
+		// "fix: http3: a response stream that ends early is an error" the three stacks agree and the
+		// short cases are judged alike on all of them)
 		if o.rtErr != "" && strings.Contains(o.rtErr, "infra:") {
 			t.Fatalf("infra: %s", o.rtErr)
 		}
@@ -1145,12 +1127,6 @@ func TestVerif_C14_cross(t *testing.T) {
 		sameReads := again == answers[idx]
 		// a zero-length body with a Content-Encoding: HTTP/3 has no bodiless exit (documented)
 		if b.stream == "short" {
-			// HTTP/3 has no check for a message shorter than declared (see c14RunLane): the
-			// two stacks that have one must agree
-			same = answers[0] == answers[1]
-			if idx == 2 {
-				sameReads = true
-			}
 			s.Count("short")
 		}
 		if b.stream == "emptywire" || (len(b.wire) == 0 && len(b.ce) > 0 && b.method != "HEAD") || b.bodiless() {
